@@ -56,6 +56,7 @@ func muHeldFacts(repo string, w *bytes.Buffer) error {
 		callee, caller string
 		code           int
 		pos            string
+		stats          bool
 	}
 	var sites []site
 	srvMethods := map[string]bool{}
@@ -95,9 +96,17 @@ func muHeldFacts(repo string, w *bytes.Buffer) error {
 	interesting := func(name string) bool {
 		return name == "deliverMessage" || (strings.HasSuffix(name, "Locked") && srvMethods[name])
 	}
+	// session-scoped statistics events (property C20): they are booked under the client id, and a new session of the same id
+	// can be registered as soon as srv.mu is free — so they have to happen inside the critical section that ends / starts the
+	// session, or the figures of the next session are wiped by the end of the previous one
+	statsSession := func(p string) bool {
+		return strings.HasSuffix(p, ".statsManager.sessionTerminated") || strings.HasSuffix(p, ".statsManager.sessionActive") ||
+			strings.HasSuffix(p, ".statsManager.clientConnected")
+	}
 	// scan one function body: `name` is the enclosing declared function, `body` the body of it or of a literal inside it
-	var scan func(name string, body *ast.BlockStmt)
-	scan = func(name string, body *ast.BlockStmt) {
+	var scan func(name string, body *ast.BlockStmt, initial int)
+	scan = func(name string, body *ast.BlockStmt, initial int) {
+		var deferred []*ast.FuncLit
 		type ev struct {
 			pos  token.Pos
 			lock bool
@@ -108,7 +117,7 @@ func muHeldFacts(repo string, w *bytes.Buffer) error {
 		ast.Inspect(body, func(n ast.Node) bool {
 			switch v := n.(type) {
 			case *ast.FuncLit:
-				scan(name+"·func", v.Body) // a literal runs on its own: classified separately
+				scan(name+"·func", v.Body, 0) // a literal runs on its own: classified separately
 				return false
 			case *ast.DeferStmt:
 				// a deferred Unlock keeps the lock to the end; a deferred call of a Locked helper is a call at the end:
@@ -116,6 +125,10 @@ func muHeldFacts(repo string, w *bytes.Buffer) error {
 				if c := v.Call; c != nil {
 					if sel, ok := c.Fun.(*ast.SelectorExpr); ok && interesting(sel.Sel.Name) {
 						calls = append(calls, c)
+					}
+					// a deferred literal runs when the enclosing function returns: it starts in the lock state the function ends in
+					if lit, ok := c.Fun.(*ast.FuncLit); ok {
+						deferred = append(deferred, lit)
 					}
 				}
 				return false
@@ -131,6 +144,8 @@ func muHeldFacts(repo string, w *bytes.Buffer) error {
 						evs = append(evs, ev{v.Pos(), true, true})
 					case interesting(sel.Sel.Name) && !strings.HasPrefix(p, "client."):
 						calls = append(calls, v)
+					case statsSession(p):
+						calls = append(calls, v)
 					}
 				}
 			}
@@ -139,7 +154,7 @@ func muHeldFacts(repo string, w *bytes.Buffer) error {
 		sort.Slice(evs, func(i, j int) bool { return evs[i].pos < evs[j].pos })
 		for _, c := range calls {
 			callee := c.Fun.(*ast.SelectorExpr).Sel.Name
-			code := 0
+			code := initial
 			if strings.HasSuffix(name, "Locked") {
 				code = 2
 			} else if (name == "flush" && onlyDeliver("flush")) || (name == "newDeliverHandler·func" && onlyDeliver("newDeliverHandler")) {
@@ -158,7 +173,23 @@ func muHeldFacts(repo string, w *bytes.Buffer) error {
 				}
 			}
 			p := fset.Position(c.Pos())
-			sites = append(sites, site{callee, name, code, fmt.Sprintf("%s:%d", filepath.Base(p.Filename), p.Line)})
+			sites = append(sites, site{callee, name, code, fmt.Sprintf("%s:%d", filepath.Base(p.Filename), p.Line), statsSession(selPath(c.Fun))})
+		}
+		end := initial
+		if strings.HasSuffix(name, "Locked") {
+			end = 2
+		}
+		for _, e := range evs {
+			if e.lock && e.hand {
+				end = 3
+			} else if e.lock {
+				end = 1
+			} else {
+				end = 0
+			}
+		}
+		for _, lit := range deferred {
+			scan(name+"·defer", lit.Body, end)
 		}
 	}
 	names := make([]string, 0, len(pkg.Files))
@@ -169,7 +200,7 @@ func muHeldFacts(repo string, w *bytes.Buffer) error {
 	for _, fname := range names {
 		for _, d := range pkg.Files[fname].Decls {
 			if fd, ok := d.(*ast.FuncDecl); ok && fd.Body != nil {
-				scan(fd.Name.Name, fd.Body)
+				scan(fd.Name.Name, fd.Body, 0)
 			}
 		}
 	}
@@ -177,8 +208,13 @@ func muHeldFacts(repo string, w *bytes.Buffer) error {
 		return fmt.Errorf("no call of deliverMessage / …Locked found in package server")
 	}
 	nDeliver := 0
-	var ss, cs []string
+	var ss, cs, sts, stc []string
 	for _, s := range sites {
+		if s.stats {
+			sts = append(sts, fmt.Sprintf("%s <- %s (%s)", s.callee, s.caller, s.pos))
+			stc = append(stc, fmt.Sprint(s.code))
+			continue
+		}
 		if s.callee == "deliverMessage" {
 			nDeliver++
 		}
@@ -208,6 +244,8 @@ func muHeldFacts(repo string, w *bytes.Buffer) error {
 	defStrings(w, "call sites `callee <- enclosing function (file:line)` of deliverMessage and of the …Locked helpers in package server, source order", "muCallSites", ss)
 	fmt.Fprintf(w, "/-- for every call site (same order): 2 = inside a …Locked function, 1 = after `mu.Lock()` with no `mu.Unlock()` in between, 3 = after lockDuplicatedID (returns holding mu), 4 = inside deliverMessage's handler, 0 = no lock seen -/\ndef muCallSiteCodes : List Nat :=\n  [%s]\n\n", strings.Join(cs, ", "))
 	fmt.Fprintf(w, "/-- number of those sites that call `deliverMessage` -/\ndef muDeliverSites : Nat := %d\n\n", nDeliver)
+	defStrings(w, "call sites of the session-scoped statistics events statsManager.sessionTerminated / sessionActive / clientConnected", "statsSessionSites", sts)
+	fmt.Fprintf(w, "/-- for every such site, classified like `muCallSiteCodes` -/\ndef statsSessionSiteCodes : List Nat :=\n  [%s]\n\n", strings.Join(stc, ", "))
 	return nil
 }
 
